@@ -527,7 +527,8 @@ pub fn from_candid(t: &Type) -> Result<Ty, FromCandidErr> {
         TypeInner::Reserved => Ty::Prim(Prim::Reserved),
         TypeInner::Empty => Ty::Prim(Prim::Empty),
         TypeInner::Principal => Ty::Prim(Prim::Principal),
-        TypeInner::Knot(_) => return Err(FromCandidErr::Knot),
+        // a knot left in an exported environment denotes the definition of that name
+        TypeInner::Knot(id) => Ty::Var(id.to_string()),
         TypeInner::Unknown => return Err(FromCandidErr::Unknown),
         TypeInner::Future => return Err(FromCandidErr::Future),
         TypeInner::Var(s) => Ty::Var(s.clone()),
